@@ -5,20 +5,46 @@
 // outcome sequences within the deviation bound, harness/loop_explore.hh) at EVERY capacity
 // of a lattice.  AddressSanitizer flavour.
 //
-//  part A  secondary stack capacity c in {0?,1,..,7} (c = factor x slots), slots {1,2,3}:
-//    * an interaction whose request exceeds c must fail explicitly (physics-failure action),
-//      one that is alone in its Stepper call and fits must succeed;
-//    * a failed interaction leaves the track alive (it steps again) and emits nothing: the
-//      number of children of every track equals the surviving secondaries of its SUCCESSFUL
-//      interactions (nothing partial);
-//    * the event completes and the C01 energy ledger balances;
+//  part A  secondary stack capacity c in {0?,1,..,7} (c = factor x slots), slots {1,2,3};
+//    roots: ONE primary per event (track order none; the 100 MeV primaries from the centre also
+//    with init_charge and reindex_status) and, for slots >= 2, TWO / THREE primaries handed to
+//    the first call (events 0,1,2; all three track orders), so that several tracks allocate
+//    from the stack in the same step:
+//    * the allocations of one Stepper call are judged by the sequential model of the stack
+//      (cleared at every pre-step; a request of n succeeds iff used + n <= c and then
+//      used += n; a failed request leaves `used` unchanged): every request must fail / succeed
+//      exactly as the model says (oversized, beyond-the-rest, spurious failure);
+//    * a failed in-flight interaction carries the physics-failure action in the step stream
+//      and a successful one never does (a failed AT-REST interaction keeps the model's action:
+//      tagged observation, DESIGN 9.3); the failed track stays alive (it steps again from the same
+//      point with the same energy) and emits nothing: the number of children of every track
+//      equals the surviving secondaries of its SUCCESSFUL interactions (nothing partial);
+//    * the event completes and the C01 energy ledger balances (per event);
 //    * dedicated sub-case: a stopped positron whose only at-rest outcome needs 2 secondaries,
 //      with c = 1 and c = 2.
-//  part B  initializer capacity Q in {1,2,3,4,6}, slots {1,2}: when the pending initializers
-//    would exceed Q the Stepper call throws celeritas::RuntimeError (and nothing else: no
-//    ASan report, no other exception, reported `queued` never exceeds Q); after
-//    reset_state() + reseed the next event's step stream equals the one on a fresh state.
+//  part B  initializer capacity Q in {1,2,3,4,6}, slots {1,2}, track order {none, init_charge,
+//    reindex_status}:
+//    * a Stepper call throws celeritas::RuntimeError (and nothing else: no ASan report, no
+//      other exception, reported `queued` never exceeds Q) IF AND ONLY IF the ledger says that
+//      the pending initializers exceed Q:  need_k = queued_{k-1} - tracks started in call k
+//      + surviving secondaries of the successful interactions of call k - [order !=
+//      init_charge] absorbed parents with >= 1 surviving secondary (first secondary is
+//      initialised in place);  need_k <= Q and a throw = "exhaust:spurious-overflow" (exact fit
+//      must work), need_k > Q without a throw = "exhaust:overflow-not-reported"; on calls that
+//      return, queued must equal need_k;
+//    * after reset_state() + reseed the reference event (a 1 MeV gamma whose first interaction
+//      emits 1 or 3 secondaries - as many as Q holds - so that slots and queue are used) gives
+//      the same step stream as on a fresh state;
+//    * primaries at the limit: exactly Q primaries into the empty queue are accepted and the
+//      event completes; Q+1 throw, and the SAME stepper runs the reference event correctly
+//      after reset_state(); for every explored history with one deviation, at its first call
+//      that leaves q > 0 initializers pending: Q-q primaries are accepted, Q-q+1 throw
+//      RuntimeError (no ASan report) and the stepper is usable after reset_state().
 #include "harness/loop_explore.hh"
+#if defined(__SANITIZE_ADDRESS__)
+#    include <sanitizer/asan_interface.h>
+#    include <sanitizer/common_interface_defs.h>
+#endif
 
 using namespace celeritas;
 using namespace vf;
@@ -46,6 +72,49 @@ static int asan_errors()
 #endif
 }
 
+#if defined(__SANITIZE_ADDRESS__)
+//! AddressSanitizer is about to end the process on its own (fatal report, or an internal CHECK
+//! that fails because earlier wild writes of the code under test damaged its chunk headers):
+//! leave a crash record naming the running case, so that the driver reports a violation of
+//! that case (signature asan:<part>) instead of a broken check without a verdict.
+static void on_asan_death()
+{
+    vf::detail::write_crash("ASAN", 0);
+    _exit(5);
+}
+//! Called by AddressSanitizer with the text of every report, BEFORE the offending access is
+//! executed: the report becomes a violation of the running case and the shard ends in an
+//! orderly way instead of going on with memory that is about to be damaged.
+static vf::Run* g_run = nullptr;
+static void on_asan_report(char const* text)
+{
+    static bool entered = false;
+    if (entered || !g_run)
+        return;
+    entered = true;
+    std::string t = text ? text : "";
+    g_run->violation("exhaust:asan-report", vf::detail::g_case,
+                     "AddressSanitizer: " + t.substr(0, 1500));
+    g_run->end_case();
+    g_run->cap_hit("shard stopped after its first AddressSanitizer report");
+    int rc = g_run->finish();
+    fflush(nullptr);
+    _exit(rc);
+}
+#endif
+
+//! After an AddressSanitizer report the heap may be corrupted (recover mode keeps running and
+//! ASan itself may later die on its own damaged bookkeeping, leaving no result file): the
+//! report is recorded as a violation of the current case and the shard ends in an orderly way.
+[[noreturn]] static void stop_after_asan(vf::Run& R)
+{
+    R.end_case();
+    R.cap_hit("shard stopped after its first AddressSanitizer report");
+    int rc = R.finish();
+    fflush(nullptr);
+    _exit(rc);
+}
+
 struct CapCfg
 {
     std::string id;
@@ -54,10 +123,44 @@ struct CapCfg
     bool at_rest_only;
 };
 
+//! One exploration root: the primaries handed to the first call (event id = index) + order
+struct SecRoot
+{
+    std::string id;
+    std::vector<PrimaryCase> prims;
+    TrackOrder order;
+};
+
+// production cuts of "mat" (problems/loop_zoo.hh): gamma 0.02, e+- 0.05 MeV
+static unsigned surviving(std::vector<std::pair<int, double>> const& secs)
+{
+    unsigned n = 0;
+    for (auto const& sc : secs)
+    {
+        double cut = sc.first == 0 ? 0.02 : 0.05;
+        if (!(sc.second < cut))
+            ++n;
+    }
+    return n;
+}
+static bool parent_absorbed(Outcome o)
+{
+    switch (o)
+    {
+        case Outcome::absorb:
+        case Outcome::absorb_two:
+        case Outcome::absorb_pair:
+        case Outcome::absorb_subcut:
+        case Outcome::annihilate:
+        case Outcome::absorb_in_flight:
+        case Outcome::absorb_subcut_positron: return true;
+        default: return false;
+    }
+}
+
 static void part_secondary(vf::Run& R)
 {
     bool const thorough = R.thorough();
-    int const bound = 2;
     std::vector<CapCfg> cfgs;
     for (unsigned s : {1u, 2u, 3u})
         for (int cap = 0; cap <= 7; ++cap)
@@ -77,29 +180,63 @@ static void part_secondary(vf::Run& R)
                 p2.push_back(p);
         prims.swap(p2);
     }
+    double const a3 = 0.5773502691896258;
+    PrimaryCase const mA = {0, 100.0, {0.2, 0.1, 0.05}, {1, 0, 0}, "mA"};
+    PrimaryCase const mB = {0, 100.0, {0.3, -0.2, 0.1}, {0, -1, 0}, "mB"};
+    PrimaryCase const mC = {1, 100.0, {0.2, 0.1, 0.05}, {a3, a3, a3}, "mC"};
+    std::vector<TrackOrder> const orders
+        = {TrackOrder::none, TrackOrder::init_charge, TrackOrder::reindex_status};
     uint64_t outer = 0;
     for (auto const& cc : cfgs)
     {
+        std::vector<SecRoot> roots;
         for (auto const& pc : prims)
+        {
+            roots.push_back({pc.id, {pc}, TrackOrder::none});
+            // more than one point of the configuration lattice: the 100 MeV primaries from
+            // the centre also under the other track orders
+            if (!cc.at_rest_only && pc.id.find(".e2.p0.") != std::string::npos)
+                for (size_t o = 1; o < orders.size(); ++o)
+                    roots.push_back({pc.id + fmt(".o%d", int(orders[o])), {pc}, orders[o]});
+        }
+        if (!cc.at_rest_only && cc.slots >= 2)
+            for (auto o : orders)
+            {
+                // several primaries in the first call: several tracks of ONE step allocate
+                roots.push_back({fmt("m2.o%d", int(o)), {mA, mB}, o});
+                if (cc.slots >= 3)
+                    roots.push_back({fmt("m3.o%d", int(o)), {mA, mB, mC}, o});
+            }
+        for (auto const& rt : roots)
         {
             if (!R.mine(outer++))
                 continue;
             if (R.expired())
                 return;
-            std::string root = cc.id + ":" + pc.id;
+            std::string root = cc.id + ":" + rt.id;
             if (R.replay() && R.replay_case().compare(0, root.size() + 1, root + "|") != 0)
                 continue;
-            if (cc.at_rest_only && pc.kind != 2)
+            // thorough: a third deviation for the several-primaries roots at the small capacities
+            // (three allocating tracks in one step / fail, succeed, fail sequences)
+            int const bound = (thorough && rt.prims.size() > 1 && cc.cap <= 3) ? 3 : 2;
+            if (cc.at_rest_only && rt.prims[0].kind != 2)
                 continue;
             LoopConfig cfg;
             cfg.geometry = 1;
             cfg.along = AlongStep::linear;
             cfg.slots = cc.slots;
+            cfg.track_order = rt.order;
             cfg.xs_gamma = 3.0;
             cfg.xs_electron = 4.0;
             cfg.secondary_stack_factor = (cc.cap + 0.5) / cc.slots;
+            // ample (<= 3 primaries + 2 deviations x 3 secondaries pending); the default 4096 makes
+            // every Stepper construction allocate and poison ~0.5 MB under ASan
+            cfg.init_capacity = 256;
             if (cc.at_rest_only)
                 cfg.menu = {Outcome::absorb_in_flight, Outcome::annihilate};
+            // everything that builds or drives a Stepper runs inside a named case (crash / hang /
+            // ASan-death attribution); executions rename it to "root|<choice prefix>"
+            R.begin_case(root + "|", 600);
             std::unique_ptr<LoopProblem> P;
             try
             {
@@ -109,9 +246,9 @@ static void part_secondary(vf::Run& R)
             {
                 // an explicit rejection of the configuration is a "reported error"
                 R.tag("config-rejected:" + cc.id);
+                R.end_case();
                 continue;
             }
-            R.begin_case(root, 600);
             ExploreStats st;
             EventRun er;
             LoggingChooser ch;
@@ -120,6 +257,7 @@ static void part_secondary(vf::Run& R)
             P->recorder->call_stamp = &call;
             int asan0 = asan_errors();
             auto body = [&](Choices& c) {
+                R.begin_case(root + "|" + choices_to_string(c.prefix()), 600);
                 P->recorder->steps.clear();
                 ch.c = &c;
                 ch.log.clear();
@@ -130,11 +268,16 @@ static void part_secondary(vf::Run& R)
                 {
                     auto stp = P->make_stepper();
                     stp->reseed(UniqueEventId{0});
-                    Primary p = P->primary(pc.kind, pc.energy, pc.pos, pc.dir, 0);
-                    StepperResult r = (*stp)(Span<Primary const>{&p, 1});
+                    std::vector<Primary> pv;
+                    for (size_t k = 0; k < rt.prims.size(); ++k)
+                    {
+                        auto const& pc = rt.prims[k];
+                        pv.push_back(P->primary(pc.kind, pc.energy, pc.pos, pc.dir, unsigned(k)));
+                    }
+                    StepperResult r = (*stp)(make_span(pv));
                     er.calls = 1;
                     unsigned const horizon = cc.at_rest_only ? 300 : 5000;
-                    while (r && er.calls < horizon)
+                    while (r && er.calls < horizon && asan_errors() == asan0)
                     {
                         call = er.calls;
                         r = (*stp)();
@@ -155,8 +298,7 @@ static void part_secondary(vf::Run& R)
                 if (asan_errors() != asan0)
                 {
                     R.violation("exhaust:asan-report", cid, "AddressSanitizer reported an error");
-                    asan0 = asan_errors();
-                    return true;
+                    stop_after_asan(R);
                 }
                 if (!er.exception.empty())
                 {
@@ -174,24 +316,33 @@ static void part_secondary(vf::Run& R)
                                     cc.id.c_str(), er.calls, cc.cap));
                     return true;
                 }
-                Verdict v = check_energy(*P, pc, P->recorder->steps);
-                if (v)
+                // C01 energy ledger, event by event (primary k is event k)
+                for (size_t k = 0; k < rt.prims.size(); ++k)
                 {
-                    R.violation(v.sig, cid, cc.id + ": " + v.msg);
-                    return true;
+                    Verdict v;
+                    if (rt.prims.size() == 1)
+                        v = check_energy(*P, rt.prims[0], P->recorder->steps);
+                    else
+                    {
+                        std::vector<StepRec> mine;
+                        for (auto const& r : P->recorder->steps)
+                            if (r.event == k)
+                                mine.push_back(r);
+                        v = check_energy(*P, rt.prims[k], mine);
+                    }
+                    if (v)
+                    {
+                        R.violation(v.sig, cid, cc.id + fmt(": event %zu: ", k) + v.msg);
+                        return true;
+                    }
                 }
                 // The scripted interactor reports for every interaction whether the allocation
                 // of its secondaries failed (Interaction::from_failure returned)
                 TrackMap tracks = group_tracks(P->recorder->steps);
                 std::map<std::pair<unsigned, unsigned>, unsigned> expected_children, seen_children;
-                std::map<std::pair<unsigned, unsigned>, unsigned> last_query_call;
-                std::map<unsigned, int> requested_in_call;
-                for (auto const& q : ch.log)
-                {
-                    auto menu = feasible_outcomes(*P->shared, q.q.particle, q.q.energy);
-                    Outcome o = menu.at(q.chosen);
-                    requested_in_call[q.call] += int(outcome_secondaries(*P->shared, o, q.q.particle, q.q.energy).size());
-                }
+                // sequential model of the secondary stack: cleared at every pre-step, requests
+                // are served in execution (= query) order
+                std::map<unsigned, int> used_in_call, requests_in_call;
                 for (size_t qi = 0; qi < ch.log.size(); ++qi)
                 {
                     auto const& q = ch.log[qi];
@@ -206,7 +357,10 @@ static void part_secondary(vf::Run& R)
                     Outcome o = menu.at(q.chosen);
                     auto secs = outcome_secondaries(*P->shared, o, q.q.particle, q.q.energy);
                     int need = int(secs.size());
+                    int& used = used_in_call[q.call];
                     R.tag(failed ? "interaction:failed" : "interaction:ok");
+                    if (need > 0 && ++requests_in_call[q.call] == 2)
+                        R.tag("call:several-requests-in-one-step");
                     if (need > cc.cap && !failed)
                     {
                         R.violation("exhaust:oversized-request-did-not-fail", cid,
@@ -215,13 +369,64 @@ static void part_secondary(vf::Run& R)
                                         cc.id.c_str(), to_cstring(o), need, cc.cap));
                         return true;
                     }
-                    if (failed && requested_in_call[q.call] <= cc.cap)
+                    if (need > 0 && !failed && used + need > cc.cap)
+                    {
+                        R.violation("exhaust:request-beyond-remaining-capacity-did-not-fail", cid,
+                                    fmt("%s: call %u: %s needs %d secondaries, %d of capacity %d "
+                                        "already taken by earlier tracks of this step, but the "
+                                        "allocation succeeded",
+                                        cc.id.c_str(), q.call, to_cstring(o), need, used, cc.cap));
+                        return true;
+                    }
+                    if (failed && used + need <= cc.cap)
                     {
                         R.violation("exhaust:spurious-failure", cid,
-                                    fmt("%s: %s needs %d secondaries, all requests of that call need "
-                                        "%d <= capacity %d, but it failed",
-                                        cc.id.c_str(), to_cstring(o), need, requested_in_call[q.call],
-                                        cc.cap));
+                                    fmt("%s: call %u: %s needs %d secondaries, earlier tracks of this "
+                                        "step hold %d, capacity %d, but it failed",
+                                        cc.id.c_str(), q.call, to_cstring(o), need, used, cc.cap));
+                        return true;
+                    }
+                    if (failed && used > 0)
+                        R.tag("call:failed-next-to-successful-request");
+                    if (!failed)
+                        used += need;
+                    // the step record of this interaction
+                    auto const& steps = tracks[key].steps;
+                    StepRec const* cur = nullptr;
+                    StepRec const* nxt = nullptr;
+                    for (size_t k = 0; k < steps.size(); ++k)
+                        if (steps[k]->call == q.call)
+                        {
+                            cur = steps[k];
+                            nxt = k + 1 < steps.size() ? steps[k + 1] : nullptr;
+                        }
+                    if (!cur)
+                    {
+                        R.violation("exhaust:interaction-without-step-record", cid,
+                                    fmt("%s: event %u track %u interacted in call %u but delivered "
+                                        "no step record",
+                                        cc.id.c_str(), q.q.event, q.q.track, q.call));
+                        return true;
+                    }
+                    // "fails explicitly": the failure is visible in the public step stream
+                    bool const says_failed = P->action_labels.at(cur->action) == "physics-failure";
+                    if (failed && !says_failed && q.q.energy == 0)
+                    {
+                        // Observation recorded in DESIGN 9.3 (not a violation of the property as
+                        // stated): an at-rest step already has length 0, SimTrackView::step_limit
+                        // keeps the earlier action on a tie, so the model's action id stays
+                        R.tag("observation:failed-at-rest-interaction-keeps-model-action");
+                    }
+                    else if (failed != says_failed)
+                    {
+                        R.violation(failed ? "exhaust:failure-not-reported"
+                                           : "exhaust:failure-reported-for-successful-interaction",
+                                    cid,
+                                    fmt("%s: event %u track %u call %u: allocation of %d secondaries "
+                                        "%s, step action is '%s'",
+                                        cc.id.c_str(), q.q.event, q.q.track, q.call, need,
+                                        failed ? "failed" : "succeeded",
+                                        P->action_labels.at(cur->action).c_str()));
                         return true;
                     }
                     if (failed)
@@ -231,16 +436,7 @@ static void part_secondary(vf::Run& R)
                         // starts exactly where and with what this one ended.  (It then samples
                         // a new interaction length - the process is memoryless - so the next
                         // interaction may come after further continuous loss, or never.)
-                        auto const& steps = tracks[key].steps;
-                        StepRec const* cur = nullptr;
-                        StepRec const* nxt = nullptr;
-                        for (size_t k = 0; k < steps.size(); ++k)
-                            if (steps[k]->call == q.call)
-                            {
-                                cur = steps[k];
-                                nxt = k + 1 < steps.size() ? steps[k + 1] : nullptr;
-                            }
-                        if (!cur || !nxt)
+                        if (!nxt)
                         {
                             R.violation("exhaust:failed-track-did-not-continue", cid,
                                         fmt("%s: event %u track %u: no step after the failed "
@@ -262,13 +458,7 @@ static void part_secondary(vf::Run& R)
                     }
                     else
                     {
-                        // surviving secondaries (production cuts of "mat": gamma 0.02, e+- 0.05)
-                        for (auto const& sc : secs)
-                        {
-                            double cut = sc.first == 0 ? 0.02 : 0.05;
-                            if (!(sc.second < cut))
-                                ++expected_children[key];
-                        }
+                        expected_children[key] += surviving(secs);
                     }
                 }
                 for (auto const& kv : tracks)
@@ -304,14 +494,15 @@ static void part_secondary(vf::Run& R)
                 on_exec(c);
                 for (auto const& s : P->recorder->steps)
                     fprintf(stderr,
-                            "  ev%u trk%u par%d n%u part%d %s len %.17g edep %.17g E %.17g->%.17g vol "
-                            "%d->%d\n",
-                            s.event, s.track, int(s.parent), s.step_count, s.particle,
+                            "  call %u ev%u trk%u par%d n%u part%d %s len %.17g edep %.17g E "
+                            "%.17g->%.17g vol %d->%d\n",
+                            s.call, s.event, s.track, int(s.parent), s.step_count, s.particle,
                             P->action_labels.at(s.action).c_str(), s.step_length, s.edep,
                             s.pre.energy, s.post.energy, s.pre.volume, s.post.volume);
                 for (auto const& q : ch.log)
-                    fprintf(stderr, "  query call %u trk %u kind %d E %.17g n %d chosen %d\n", q.call,
-                            q.q.track, q.q.particle, q.q.energy, q.n, q.chosen);
+                    fprintf(stderr, "  query call %u ev %u trk %u kind %d E %.17g n %d chosen %d failed %d\n",
+                            q.call, q.q.event, q.q.track, q.q.particle, q.q.energy, q.n, q.chosen,
+                            int(q.alloc_failed));
             }
             else
                 explore(body, on_exec, bound, &st);
@@ -321,10 +512,77 @@ static void part_secondary(vf::Run& R)
     }
 }
 
+//---------------------------------------------------------------------------//
+// part B
+//---------------------------------------------------------------------------//
+//! Reference event: 1 MeV gamma whose FIRST interaction is the given outcome, everything
+//! else default (absorbed)
+struct RefChooser : LoopChooser
+{
+    ScriptedShared const* shared{nullptr};
+    Outcome first{Outcome::absorb};
+    unsigned asked{0};
+    int choose(int n, InteractionQuery const& q) override
+    {
+        if (asked++ != 0)
+            return 0;
+        auto menu = feasible_outcomes(*shared, q.particle, q.energy);
+        for (int i = 0; i < int(menu.size()) && i < n; ++i)
+            if (menu[i] == first)
+                return i;
+        return 0;
+    }
+};
+
+struct RefResult
+{
+    bool ok{false};
+    uint64_t hash{0};
+    unsigned max_queued{0}, max_alive{0};
+    std::string what;
+};
+
+//! Run the reference event on the given (fresh or reset) stepper
+static RefResult run_reference(LoopProblem& P, Stepper<MemSpace::host>& stp, PrimaryCase const& ref,
+                               Outcome first)
+{
+    RefResult out;
+    RefChooser rc;
+    rc.shared = P.shared.get();
+    rc.first = first;
+    LoopChooser* saved = g_loop_chooser;
+    g_loop_chooser = &rc;
+    try
+    {
+        P.recorder->steps.clear();
+        stp.reseed(UniqueEventId{0});
+        Primary p = P.primary(ref.kind, ref.energy, ref.pos, ref.dir, 0);
+        StepperResult r = stp(Span<Primary const>{&p, 1});
+        unsigned n = 1;
+        out.max_queued = r.queued;
+        out.max_alive = r.alive;
+        int const a0 = asan_errors();
+        while (r && n++ < 5000 && asan_errors() == a0)
+        {
+            r = stp();
+            out.max_queued = std::max<unsigned>(out.max_queued, r.queued);
+            out.max_alive = std::max<unsigned>(out.max_alive, r.alive);
+        }
+        out.ok = !r;
+        out.hash = stream_hash(P.recorder->steps);
+    }
+    catch (std::exception const& e)
+    {
+        out.ok = false;
+        out.what = e.what();
+    }
+    g_loop_chooser = saved;
+    return out;
+}
+
 static void part_initializer(vf::Run& R)
 {
     bool const thorough = R.thorough();
-    int const bound = thorough ? 3 : 2;
     auto prims = primary_lattice(false);
     {
         std::vector<PrimaryCase> p2;
@@ -334,8 +592,11 @@ static void part_initializer(vf::Run& R)
         prims.swap(p2);
     }
     PrimaryCase const ref = {0, 1.0, {0.2, 0.1, 0.05}, {0, 0, 1}, "ref"};
+    std::vector<TrackOrder> const orders
+        = {TrackOrder::none, TrackOrder::init_charge, TrackOrder::reindex_status};
     uint64_t outer = 1000000;
-    for (unsigned slots : {1u, 2u})
+    for (auto order : orders)
+     for (unsigned slots : {1u, 2u})
         for (unsigned cap : {1u, 2u, 3u, 4u, 6u})
             for (auto const& pc : prims)
             {
@@ -343,7 +604,11 @@ static void part_initializer(vf::Run& R)
                     continue;
                 if (R.expired())
                     return;
-                std::string root = fmt("init.s%u.q%u:%s", slots, cap, pc.id.c_str());
+                int const bound = thorough ? 3 : 2;
+                std::string root = order == TrackOrder::none
+                                       ? fmt("init.s%u.q%u:%s", slots, cap, pc.id.c_str())
+                                       : fmt("init.s%u.q%u.o%d:%s", slots, cap, int(order),
+                                             pc.id.c_str());
                 if (R.replay() && R.replay_case().compare(0, root.size() + 1, root + "|") != 0)
                     continue;
                 LoopConfig cfg;
@@ -351,55 +616,95 @@ static void part_initializer(vf::Run& R)
                 cfg.along = AlongStep::linear;
                 cfg.slots = slots;
                 cfg.init_capacity = cap;
+                cfg.track_order = order;
                 cfg.xs_gamma = 5.0;
                 cfg.xs_electron = 8.0;
+                R.begin_case(root + "|reference", 600);
                 auto P = make_loop_problem(cfg);
-                // reference stream of the probe event on a fresh state
+                int asan0 = asan_errors();
+                // reference event: its first interaction emits as many secondaries as Q holds,
+                // so that after a reset BOTH the slots and the initializer queue are used again
+                Outcome const ref_first = cap >= 3 ? Outcome::scatter_three : Outcome::scatter_plus_one;
                 uint64_t ref_hash;
                 {
-                    Choices c0({});
-                    EventRun e0 = run_event(*P, ref, c0);
-                    if (!e0.completed)
+                    auto stp = P->make_stepper();
+                    RefResult e0 = run_reference(*P, *stp, ref, ref_first);
+                    if (!e0.ok && !e0.what.empty())
+                    {
+                        // by construction the reference event never has more than min(Q, 3)
+                        // initializers pending: an error here is a spurious overflow
+                        R.violation("exhaust:spurious-overflow[reference-event]", root + "|reference",
+                                    fmt("the reference event (1 MeV gamma, first interaction %s, at most "
+                                        "%d initializers pending, capacity %u) fails on a FRESH state: ",
+                                        to_cstring(ref_first), cap >= 3 ? 3 : 1, cap)
+                                        + e0.what.substr(0, 400));
+                        R.end_case();
+                        continue;
+                    }
+                    if (!e0.ok)
                         R.harness_error("reference event does not complete");
-                    ref_hash = stream_hash(P->recorder->steps);
+                    if (e0.max_queued == 0)
+                        R.harness_error("reference event never queues an initializer");
+                    ref_hash = e0.hash;
+                    R.maxi("ref_event_max_queued", e0.max_queued);
                 }
-                R.begin_case(root, 600);
                 ExploreStats st;
-                int asan0 = asan_errors();
                 struct Obs
                 {
                     bool threw{false}, other_exception{false}, completed{false};
                     std::string what;
                     unsigned max_queued{0};
-                    uint64_t after_hash{0};
-                    bool after_ok{false};
+                    RefResult after;
                     unsigned calls{0};
+                    unsigned throw_call{0};
+                    std::vector<StepperResult> results;
                 } ob;
+                LoggingChooser ch;
+                unsigned call = 0;
+                ch.call = &call;
+                P->recorder->call_stamp = &call;
+                // records of the explored event (the recorder is reused by the reference event)
+                std::vector<StepRec> event_recs;
+                auto primary_of = [&](int i) {
+                    // extra primaries of the at-the-limit probes (inside "mat")
+                    return P->primary(i % 2, 1.0, {0.1 * (i % 8), 0.05 * (i / 8), 0}, {1, 0, 0}, 0);
+                };
+                // run the event (choices from c) for at most `max_calls` Stepper calls
+                auto run_prefix = [&](Stepper<MemSpace::host>& stp, unsigned max_calls) {
+                    stp.reseed(UniqueEventId{0});
+                    Primary p = P->primary(pc.kind, pc.energy, pc.pos, pc.dir, 0);
+                    call = 0;
+                    StepperResult r = stp(Span<Primary const>{&p, 1});
+                    ob.results.push_back(r);
+                    ob.calls = 1;
+                    ob.max_queued = r.queued;
+                    while (r && ob.calls < max_calls && asan_errors() == asan0)
+                    {
+                        call = ob.calls;
+                        r = stp();
+                        ob.results.push_back(r);
+                        ob.max_queued = std::max<unsigned>(ob.max_queued, r.queued);
+                        ++ob.calls;
+                    }
+                    return r;
+                };
                 auto body = [&](Choices& c) {
+                    R.begin_case(root + "|" + choices_to_string(c.prefix()), 600);
                     ob = Obs{};
                     P->recorder->steps.clear();
-                    ExploreChooser ch;
                     ch.c = &c;
+                    ch.log.clear();
                     g_loop_chooser = &ch;
                     auto stp = P->make_stepper();
                     try
                     {
-                        stp->reseed(UniqueEventId{0});
-                        Primary p = P->primary(pc.kind, pc.energy, pc.pos, pc.dir, 0);
-                        StepperResult r = (*stp)(Span<Primary const>{&p, 1});
-                        ob.calls = 1;
-                        ob.max_queued = r.queued;
-                        while (r && ob.calls < 5000)
-                        {
-                            r = (*stp)();
-                            ob.max_queued = std::max<unsigned>(ob.max_queued, r.queued);
-                            ++ob.calls;
-                        }
+                        StepperResult r = run_prefix(*stp, 5000);
                         ob.completed = !r;
                     }
                     catch (RuntimeError const& e)
                     {
                         ob.threw = true;
+                        ob.throw_call = call;
                         ob.what = e.what();
                     }
                     catch (std::exception const& e)
@@ -408,28 +713,82 @@ static void part_initializer(vf::Run& R)
                         ob.what = e.what();
                     }
                     g_loop_chooser = nullptr;
+                    event_recs = P->recorder->steps;
                     if (ob.threw)
                     {
-                        // recover: reset, reseed, run the reference event with default choices
+                        // recover: reset, reseed, run the reference event on the SAME stepper
                         try
                         {
                             stp->reset_state();
-                            P->recorder->steps.clear();
-                            stp->reseed(UniqueEventId{0});
-                            Primary p = P->primary(ref.kind, ref.energy, ref.pos, ref.dir, 0);
-                            StepperResult r = (*stp)(Span<Primary const>{&p, 1});
-                            unsigned n = 1;
-                            while (r && n++ < 5000)
-                                r = (*stp)();
-                            ob.after_ok = !r;
-                            ob.after_hash = stream_hash(P->recorder->steps);
+                            ob.after = run_reference(*P, *stp, ref, ref_first);
                         }
                         catch (std::exception const& e)
                         {
-                            ob.after_ok = false;
-                            ob.what += std::string(" | after reset: ") + e.what();
+                            ob.after.ok = false;
+                            ob.after.what = e.what();
                         }
                     }
+                };
+                // primaries into a NON-EMPTY queue at the limit: replay the history up to its
+                // first call that leaves q > 0 initializers pending, then hand `extra` primaries
+                // to the next call (all interactions of that call: default = absorbed, so the
+                // queue cannot grow during the call)
+                struct Probe
+                {
+                    bool threw{false}, other{false};
+                    std::string what;
+                    unsigned queued{0};
+                    RefResult after;
+                };
+                auto probe_insert = [&](std::vector<int> const& chosen, unsigned ncalls,
+                                        unsigned extra) {
+                    Probe out;
+                    Choices c2(chosen);
+                    Obs saved = ob;
+                    auto saved_log = ch.log;
+                    ch.c = &c2;
+                    ch.log.clear();
+                    g_loop_chooser = &ch;
+                    auto stp = P->make_stepper();
+                    P->recorder->steps.clear();
+                    try
+                    {
+                        ob = Obs{};
+                        run_prefix(*stp, ncalls);
+                        ch.c = nullptr;  // defaults from here on
+                        std::vector<Primary> pv;
+                        for (unsigned i = 0; i < extra; ++i)
+                            pv.push_back(primary_of(int(i)));
+                        StepperResult r = (*stp)(make_span(pv));
+                        out.queued = r.queued;
+                    }
+                    catch (RuntimeError const& e)
+                    {
+                        out.threw = true;
+                        out.what = e.what();
+                    }
+                    catch (std::exception const& e)
+                    {
+                        out.other = true;
+                        out.what = e.what();
+                    }
+                    g_loop_chooser = nullptr;
+                    if (out.threw)
+                    {
+                        try
+                        {
+                            stp->reset_state();
+                            out.after = run_reference(*P, *stp, ref, ref_first);
+                        }
+                        catch (std::exception const& e)
+                        {
+                            out.after.ok = false;
+                            out.after.what = e.what();
+                        }
+                    }
+                    ob = saved;
+                    ch.log = saved_log;
+                    return out;
                 };
                 auto on_exec = [&](Choices const& c) {
                     R.count("evaluations");
@@ -438,8 +797,7 @@ static void part_initializer(vf::Run& R)
                     if (asan_errors() != asan0)
                     {
                         R.violation("exhaust:asan-report", cid, "AddressSanitizer reported an error");
-                        asan0 = asan_errors();
-                        return true;
+                        stop_after_asan(R);
                     }
                     if (ob.other_exception)
                     {
@@ -452,6 +810,66 @@ static void part_initializer(vf::Run& R)
                                     fmt("queued=%u with initializer capacity %u and no error", ob.max_queued, cap));
                         return true;
                     }
+                    // Ledger of the pending initializers, call by call (see the file comment)
+                    {
+                        std::vector<unsigned> nrec(ob.calls + 1, 0);
+                        for (auto const& r : event_recs)
+                            if (r.call < nrec.size())
+                                ++nrec[r.call];
+                        std::vector<long> delta(ob.calls + 1, 0);
+                        for (auto const& q : ch.log)
+                        {
+                            if (q.alloc_failed || q.call >= delta.size())
+                                continue;
+                            auto menu = feasible_outcomes(*P->shared, q.q.particle, q.q.energy);
+                            Outcome o = menu.at(q.chosen);
+                            unsigned k = surviving(
+                                outcome_secondaries(*P->shared, o, q.q.particle, q.q.energy));
+                            delta[q.call] += k;
+                            if (k > 0 && parent_absorbed(o) && order != TrackOrder::init_charge)
+                                delta[q.call] -= 1;
+                        }
+                        unsigned const last = ob.threw ? ob.throw_call : ob.calls - 1;
+                        long queued_prev = 1;  // the primary, pending when the first call starts
+                        long alive_prev = 0;
+                        for (unsigned k = 0; k <= last && k < nrec.size(); ++k)
+                        {
+                            long need = queued_prev - (long(nrec[k]) - alive_prev) + delta[k];
+                            bool const threw_here = ob.threw && k == ob.throw_call;
+                            if (threw_here && need <= long(cap))
+                            {
+                                R.violation("exhaust:spurious-overflow", cid,
+                                            fmt("call %u: %ld initializers pending before it, %u "
+                                                "tracks stepped (%ld alive before), the ledger needs "
+                                                "%ld <= capacity %u, but: %s",
+                                                k, queued_prev, nrec[k], alive_prev, need, cap,
+                                                ob.what.substr(0, 300).c_str()));
+                                return true;
+                            }
+                            if (!threw_here && need > long(cap))
+                            {
+                                R.violation("exhaust:overflow-not-reported", cid,
+                                            fmt("call %u: the ledger needs %ld pending initializers, "
+                                                "capacity %u, but the call returned (queued=%u)",
+                                                k, need, cap, ob.results[k].queued));
+                                return true;
+                            }
+                            if (threw_here)
+                                break;
+                            if (long(ob.results[k].queued) != need)
+                            {
+                                R.violation("exhaust:queued-differs-from-ledger", cid,
+                                            fmt("call %u: queued=%u, the ledger of started tracks "
+                                                "and emitted secondaries gives %ld",
+                                                k, ob.results[k].queued, need));
+                                return true;
+                            }
+                            if (need == long(cap))
+                                R.tag("initializer:exact-fit");
+                            queued_prev = ob.results[k].queued;
+                            alive_prev = ob.results[k].alive;
+                        }
+                    }
                     if (ob.threw)
                     {
                         R.tag("initializer:overflow-reported");
@@ -460,13 +878,13 @@ static void part_initializer(vf::Run& R)
                             R.violation("exhaust:unexpected-error", cid, ob.what);
                             return true;
                         }
-                        if (!ob.after_ok || ob.after_hash != ref_hash)
+                        if (!ob.after.ok || ob.after.hash != ref_hash)
                         {
                             R.violation("exhaust:state-not-usable-after-reset", cid,
                                         fmt("after the reported overflow, reset_state() and reseed, the "
                                             "reference event %s (%s)",
-                                            ob.after_ok ? "gives a different step stream" : "fails",
-                                            ob.what.c_str()));
+                                            ob.after.ok ? "gives a different step stream" : "fails",
+                                            (ob.what + " | after reset: " + ob.after.what).c_str()));
                             return true;
                         }
                         R.nontrivial(hash_mix(hash_str(root), hash_str(choices_to_string(c.chosen()))));
@@ -480,37 +898,179 @@ static void part_initializer(vf::Run& R)
                             return true;
                         }
                     }
+                    // primaries arriving while initializers are pending, at the limit
+                    if (c.deviations() == 1)
+                    {
+                        unsigned k = 0;
+                        while (k < ob.results.size() && ob.results[k].queued == 0)
+                            ++k;
+                        if (k < ob.results.size() && ob.results[k].queued <= cap)
+                        {
+                            unsigned const q = ob.results[k].queued;
+                            std::vector<int> chosen = c.chosen();
+                            for (int over = 0; over <= 1; ++over)
+                            {
+                                unsigned const extra = cap - q + over;
+                                if (extra == 0)
+                                    continue;
+                                Probe pr = probe_insert(chosen, k + 1, extra);
+                                R.count("evaluations");
+                                std::string pid = cid + fmt(" +%u primaries after call %u (queued %u)",
+                                                            extra, k, q);
+                                if (asan_errors() != asan0)
+                                {
+                                    R.violation("exhaust:asan-report", cid,
+                                                "AddressSanitizer reported an error: " + pid);
+                                    stop_after_asan(R);
+                                }
+                                if (pr.other)
+                                {
+                                    R.violation("exhaust:unexpected-exception-type", cid, pid + ": " + pr.what);
+                                    return true;
+                                }
+                                if (!over)
+                                {
+                                    R.tag("primaries:into-pending-queue-exact-fit");
+                                    if (pr.threw)
+                                    {
+                                        R.violation("exhaust:spurious-overflow[primaries]", cid,
+                                                    pid + fmt(": %u + %u <= capacity %u but: ", q, extra, cap)
+                                                        + pr.what.substr(0, 300));
+                                        return true;
+                                    }
+                                    if (pr.queued > cap)
+                                    {
+                                        R.violation("exhaust:queued-exceeds-capacity", cid, pid);
+                                        return true;
+                                    }
+                                }
+                                else
+                                {
+                                    R.tag("primaries:into-pending-queue-one-too-many");
+                                    if (!pr.threw)
+                                    {
+                                        R.violation("exhaust:too-many-primaries-not-reported", cid,
+                                                    pid + fmt(": %u + %u > capacity %u", q, extra, cap));
+                                        return true;
+                                    }
+                                    if (!pr.after.ok || pr.after.hash != ref_hash)
+                                    {
+                                        R.violation("exhaust:state-not-usable-after-reset[primaries]", cid,
+                                                    pid + ": after the reported overflow and reset_state() "
+                                                          "the reference event "
+                                                        + (pr.after.ok ? "gives a different step stream"
+                                                                       : "fails: " + pr.after.what));
+                                        return true;
+                                    }
+                                }
+                            }
+                        }
+                    }
                     R.outcome(hash_mix(ob.threw, ob.max_queued));
                     return !((st.executions & 31) == 0 && R.expired());
                 };
-                if (R.replay())
+                if (R.replay()
+                    && (R.replay_case() == root + "|primaries" || R.replay_case() == root + "|reference"))
+                {
+                    // only the reference event above / the probe below
+                }
+                else if (R.replay())
                 {
                     std::string rc = R.replay_case();
                     Choices c(choices_from_string(rc.substr(root.size() + 1)));
                     body(c);
                     on_exec(c);
+                    for (size_t k = 0; k < ob.results.size(); ++k)
+                        fprintf(stderr, "  call %zu: active %u alive %u queued %u\n", k,
+                                ob.results[k].active, ob.results[k].alive, ob.results[k].queued);
+                    for (auto const& q : ch.log)
+                        fprintf(stderr, "  query call %u trk %u kind %d E %.17g n %d chosen %d\n", q.call,
+                                q.q.track, q.q.particle, q.q.energy, q.n, q.chosen);
+                    if (ob.threw)
+                        fprintf(stderr, "  threw in call %u: %s\n", ob.throw_call, ob.what.c_str());
                 }
                 else
                     explore(body, on_exec, bound, &st);
-                // inserting more primaries than the capacity must be reported as well
+                // primaries into the EMPTY queue: exactly `cap` are accepted and transported;
+                // `cap + 1` are reported, and the same stepper is usable after reset_state()
+                if (!R.replay() || R.replay_case() == root + "|primaries")
                 {
-                    auto stp = P->make_stepper();
-                    std::vector<Primary> many;
-                    for (unsigned i = 0; i < cap + 1; ++i)
-                        many.push_back(P->primary(0, 1.0, {0.1 * i, 0, 0}, {1, 0, 0}, 0));
-                    bool threw = false;
-                    try
+                    std::string cid = root + "|primaries";
+                    R.begin_case(cid, 600);
+                    for (unsigned n : {cap, cap + 1})
                     {
-                        (*stp)(make_span(many));
+                        auto stp = P->make_stepper();
+                        std::vector<Primary> many;
+                        for (unsigned i = 0; i < n; ++i)
+                            many.push_back(primary_of(int(i)));
+                        bool threw = false, completed = false;
+                        std::string what;
+                        unsigned maxq = 0;
+                        g_loop_chooser = nullptr;
+                        try
+                        {
+                            stp->reseed(UniqueEventId{0});
+                            StepperResult r = (*stp)(make_span(many));
+                            maxq = r.queued;
+                            unsigned k = 1;
+                            while (r && k++ < 5000)
+                            {
+                                r = (*stp)();
+                                maxq = std::max<unsigned>(maxq, r.queued);
+                            }
+                            completed = !r;
+                        }
+                        catch (RuntimeError const& e)
+                        {
+                            threw = true;
+                            what = e.what();
+                        }
+                        R.count("evaluations");
+                        if (asan_errors() != asan0)
+                        {
+                            R.violation("exhaust:asan-report", cid,
+                                        fmt("AddressSanitizer reported an error: %u primaries into capacity %u", n, cap));
+                            stop_after_asan(R);
+                        }
+                        else if (n == cap && (threw || !completed || maxq > cap))
+                            R.violation(threw ? "exhaust:spurious-overflow[primaries]"
+                                              : "exhaust:event-does-not-complete",
+                                        cid,
+                                        fmt("%u primaries into the empty queue of capacity %u: %s", n, cap,
+                                            threw ? what.substr(0, 300).c_str() : "not transported"));
+                        else if (n == cap + 1 && !threw)
+                            R.violation("exhaust:too-many-primaries-not-reported", cid,
+                                        fmt("%u primaries into capacity %u", cap + 1, cap));
+                        else if (n == cap + 1)
+                        {
+                            RefResult after;
+                            try
+                            {
+                                stp->reset_state();
+                                after = run_reference(*P, *stp, ref, ref_first);
+                            }
+                            catch (std::exception const& e)
+                            {
+                                after.ok = false;
+                                after.what = e.what();
+                            }
+                            if (asan_errors() != asan0)
+                            {
+                                R.violation("exhaust:asan-report", cid,
+                                            "AddressSanitizer reported an error in the event after the "
+                                            "rejected primaries");
+                                stop_after_asan(R);
+                            }
+                            else if (!after.ok || after.hash != ref_hash)
+                                R.violation("exhaust:state-not-usable-after-reset[primaries]", cid,
+                                            fmt("%u primaries into capacity %u were rejected; after "
+                                                "reset_state() and reseed the reference event on the same "
+                                                "stepper %s",
+                                                cap + 1, cap,
+                                                after.ok ? "gives a different step stream"
+                                                         : ("fails: " + after.what).c_str()));
+                        }
                     }
-                    catch (RuntimeError const&)
-                    {
-                        threw = true;
-                    }
-                    R.count("evaluations");
-                    if (!threw || asan_errors() != asan0)
-                        R.violation("exhaust:too-many-primaries-not-reported", root + "|primaries",
-                                    fmt("%u primaries into capacity %u", cap + 1, cap));
                 }
                 R.count("roots");
                 R.end_case();
@@ -520,6 +1080,11 @@ static void part_initializer(vf::Run& R)
 int main(int argc, char** argv)
 {
     vf::Run R(argc, argv, "C16", "c16_exhaust");
+#if defined(__SANITIZE_ADDRESS__)
+    __sanitizer_set_death_callback(on_asan_death);
+    g_run = &R;
+    __asan_set_error_report_callback(on_asan_report);
+#endif
     if (R.part() == "secondary")
         part_secondary(R);
     else if (R.part() == "initializer")
@@ -529,6 +1094,9 @@ int main(int argc, char** argv)
     R.sample("sec.s2.c1:k0.e2.p0.d2|3 = 2 slots, secondary stack of 1: 100 MeV gamma, first interaction "
              "'absorb_two' (needs 2) must fail explicitly, retried with the default");
     R.sample("init.s1.q2:k0.e2.p0.d0|7.7 = 1 slot, initializer capacity 2: two 'scatter_three' in a row "
-             "overflow the queue: RuntimeError, reset, reference event reproduces");
+             "overflow the queue: RuntimeError exactly in the call whose ledger exceeds 2, reset, "
+             "reference event (gamma, first interaction scatter_plus_one) reproduces");
+    R.sample("sec.s2.c3:m2.o0|3.3 = 2 slots, stack of 3, two 100 MeV gammas in the first call, both "
+             "'absorb_two' in the same step: the first takes 2, the second (needs 2, 1 left) must fail");
     return R.finish();
 }
